@@ -17,6 +17,7 @@ import (
 	"strings"
 	"time"
 
+	"github.com/pquerna/otp/totp"
 	"github.com/volatiletech/authboss/v3"
 	_ "github.com/volatiletech/authboss/v3/auth"
 	"github.com/volatiletech/authboss/v3/confirm"
@@ -226,6 +227,11 @@ type World struct {
 }
 
 var epoch = time.Date(2031, 3, 14, 9, 26, 53, 0, time.UTC)
+
+func init() {
+	// the TOTP dependency's clock (see cmd/instrument): same virtual clock as the library's
+	totp.VerifClock = verifclock.Now
+}
 
 // New builds and initialises a world.
 func New(cfg Cfg, salt string) (w *World, err error) {
